@@ -73,6 +73,7 @@ def run(ctx):
     cov["attribute_documents"] = attr_docs(ctx)
     # ---- (3) mutation / truncation sweep of repository inputs
     mut = mutation_sweep(ctx)
+    cov["other_parsers"] = other_parsers_sweep(ctx)
     cov.update({"states": r.distinct, "transitions": r.generated, "traces_validated_against_impl": len(docs),
                 "documents_accepted_by_model": nacc, "documents_rejected_by_model": nrej, "mutation_sweep": mut,
                 "exhaustive": True, "model_constants": consts})
@@ -218,3 +219,69 @@ def mutation_sweep(ctx):
         else:
             stats["other"] += 1
     return stats
+
+
+def other_parsers_sweep(ctx):
+    """the same deterministic mutations for the other readers: gama-g3 (DataParser), LocalNetworkAdjustmentResults::read_xml
+    (through harness/drv_results) and compare-xyz on gama-g3 results; ASan + UBSan builds, termination, no crash"""
+    import subprocess, concurrent.futures
+    vlib.build("asan", ["gama-g3", "drv_results", "compare-xyz"])
+    g3 = vlib.binpath("asan", "gama-g3")
+    dr = vlib.binpath("asan", "drv_results")
+    cx = vlib.binpath("asan", "compare-xyz")
+    rnd = random.Random(ctx.seed + 7)
+    d3 = os.path.join(vlib.REPO, "tests/gama-g3/input")
+    dl = os.path.join(vlib.REPO, "tests/gama-local/input")
+    srcs = [("g3", os.path.join(d3, f)) for f in sorted(os.listdir(d3)) if f.endswith(".xml") and not f.endswith("-adj.xml")]
+    srcs += [("g3adj", os.path.join(d3, f)) for f in sorted(os.listdir(d3)) if f.endswith("-adj.xml")]
+    srcs += [("res", os.path.join(dl, f)) for f in rnd.sample(sorted(f for f in os.listdir(dl) if f.endswith(".xml")), 4 if ctx.quick else 12)]
+    per = 25 if ctx.quick else 150
+    wd = os.path.join(ctx.outdir, "others")
+    os.makedirs(wd, exist_ok=True)
+    env = dict(os.environ)
+    env.update(vlib.ASAN_ENV)
+    tasks = []
+    for kind, path in srcs:
+        data = open(path, "rb").read()
+        for k in range(per):
+            pos = rnd.randrange(len(data))
+            mode = k % 3
+            if mode == 0:
+                m = data[:pos]
+            elif mode == 1:
+                m = data[:pos] + rnd.choice(REPL) + data[pos + 1:]
+            else:
+                m = data[:pos] + data[min(len(data), pos + rnd.randrange(1, 60)):]
+            tasks.append((kind, os.path.basename(path), mode, pos, m))
+
+    def run(i):
+        kind, name, mode, pos, m = tasks[i]
+        f = os.path.join(wd, "m%d.xml" % i)
+        open(f, "wb").write(m)
+        cmd = {"g3": [g3, f, f + ".out"], "g3adj": [cx, f, f], "res": [dr, "xml", f]}[kind]
+        try:
+            p = subprocess.run(cmd, stdout=subprocess.PIPE, stderr=subprocess.STDOUT, env=env, timeout=60)
+            rc, out = p.returncode, p.stdout.decode("utf-8", "replace")
+        except subprocess.TimeoutExpired:
+            rc, out = -9, "timeout"
+        for x in (f, f + ".out"):
+            if os.path.exists(x):
+                os.remove(x)
+        return rc, out
+    with concurrent.futures.ThreadPoolExecutor(max_workers=vlib.NCPU) as ex:
+        res = list(ex.map(run, range(len(tasks))))
+    st = {"runs": len(tasks), "crashes": 0}
+    for (kind, name, mode, pos, m), (rc, out) in zip(tasks, res):
+        bad = None
+        if rc == -9:
+            bad = "hang"
+        elif "ERROR: AddressSanitizer" in out or "runtime error:" in out:
+            bad = "sanitizer"
+        elif rc < 0 or rc >= 128:
+            bad = "crash"
+        if bad:
+            st["crashes"] += 1
+            ctx.violation("others|%s|%s" % (kind, bad), "%s mutated (mode %d at byte %d) makes the %s reader %s (rc=%s)\n%s" % (
+                name, mode, pos, {"g3": "gama-g3 input", "g3adj": "gama-g3 results (compare-xyz)", "res": "adjustment results (read_xml)"}[kind], bad, rc, out[-1500:]),
+                replay={"file": name, "kind": kind, "mode": mode, "pos": pos, "data_latin1": m.decode("latin-1")})
+    return st
